@@ -53,13 +53,19 @@ static void source_init(source* s, const uint8_t* in, size_t in_len, bool want_c
 }
 static size_t source_remaining(const source* s) { return s->in_len - s->in_pos; }
 // source_supply compacts (drops the consumed prefix, advancing pos) and appends n more input bytes.
+// (added for C03) nullempty=1: a zero-length source window / destination / token buffer / work buffer is
+// handed over as {NULL, 0} (what wuffs_base__empty_io_buffer() and wuffs_base__empty_slice_u8() are)
+// instead of a zero-length heap block, so that pointer arithmetic on a NULL base is seen by UBSan.
+static bool g_null_empty = false;
+static uint8_t* xalloc_maybe_null(size_t n) { return (n == 0 && g_null_empty) ? NULL : xalloc(n); }
+
 static void source_supply(source* s, size_t n) {
   if (n > source_remaining(s)) n = source_remaining(s);
   size_t ri = s->buf.meta.ri, wi = s->buf.meta.wi;
   size_t keep = wi - ri;
   size_t used = keep + n;
   size_t len = used + s->slack;
-  uint8_t* nb = xalloc(len);
+  uint8_t* nb = xalloc_maybe_null(len);
   if (keep) memcpy(nb, s->buf.data.ptr + ri, keep);
   if (n) memcpy(nb + keep, s->in + s->in_pos, n);
   if (s->slack) {
@@ -106,7 +112,7 @@ static void dest_refill(dest* d, uint64_t retain, size_t cap) {
   size_t wi = d->buf.meta.wi;
   size_t keep = (retain < wi) ? (size_t)retain : wi;
   size_t len = keep + cap;
-  uint8_t* nb = xalloc(len);
+  uint8_t* nb = xalloc_maybe_null(len);
   if (keep) memcpy(nb, d->buf.data.ptr + (wi - keep), keep);
   if (cap) {
     if (!WV_MSAN || (d->pat && d->pat->mode)) memset(nb + keep, 0xDD, cap);
